@@ -44,6 +44,9 @@ def program_strategy(draw, tier):
     return {
         "cls": cls, "pool": pool, "ops": inputs,
         "ws2": draw(st.sampled_from([False, False, False, True])),
+        # one input is listed a second time: the same object again, or its copy in another workspace (same identifier)
+        "again": draw(st.sampled_from([None, None, None, None, {"k": 0, "how": "same"}, {"k": 1, "how": "copy"},
+                                       {"k": 0, "how": "copy"}, {"k": 2, "how": "same"}])),
         "add_data": draw(st.sampled_from([True] * 15 + [False])),
         "allow_known": draw(st.sampled_from([False] * 9 + [True])),
     }
@@ -126,7 +129,7 @@ class C16(Check):
             return res
         pool = program["pool"]
         allow_known = bool(program.get("allow_known"))
-        ws = ws2 = None
+        ws = ws2 = ws3 = None
         try:
             ws = Workspace.create(env.new_path("c16"))
             out_ws = ws
@@ -172,6 +175,15 @@ class C16(Check):
                     res.info = {"build_error": repr(exc)[:300]}
                     return res
                 inputs.append(obj)
+            again = program.get("again")
+            if again and cls != "DrapeModel":
+                source = inputs[again["k"] % len(inputs)]
+                if again["how"] == "copy":
+                    ws3 = Workspace.create(env.new_path("c16c"))
+                    source = source.copy(parent=ws3)
+                inputs.append(source)
+                trailing.append(trailing[again["k"] % len(trailing)])
+                res.label(f"input-listed-again:{again['how']}")
             before = [snapshot(obj, cls) for obj in inputs]
             merger = getattr(merging, MERGERS[cls])
             add_data = bool(program.get("add_data", True))
@@ -317,7 +329,7 @@ class C16(Check):
             res.info = {"vertices": [len(s.get("vertices", s.get("prisms", []))) for s in before],
                         "labels": [list(lab) for lab in labels]}
         finally:
-            env.close_quietly(ws, ws2)
+            env.close_quietly(ws, ws2, ws3)
         return res
 
     @staticmethod
